@@ -129,11 +129,13 @@ func (f *function) diffEnv() (bool, string, diff.ValueDiff, error) {
 		return false, "target has never been run", nil, nil
 	}
 
-	eq, err := starlark.EqualDepth(f.oldEnv, f.newEnv, 1000)
+	// A nil diff means that the environments are equal. (The environments are graphs with a lot of
+	// sharing: diff compares each pair of shared parts once, starlark.EqualDepth once per path.)
+	d, err := diff.DiffDepth(f.oldEnv, f.newEnv, 1000)
 	if err != nil {
 		return false, "", nil, fmt.Errorf("comparing function environments: %w", err)
 	}
-	if eq {
+	if d == nil {
 		return true, "", nil, nil
 	}
 
@@ -146,10 +148,6 @@ func (f *function) diffEnv() (bool, string, diff.ValueDiff, error) {
 		return false, "", nil, fmt.Errorf("new environment is not a dict (%v)", newEnv.Type())
 	}
 
-	d, err := diff.DiffDepth(f.oldEnv, f.newEnv, 1000)
-	if err != nil {
-		return false, "", nil, fmt.Errorf("diffing environments: %w", err)
-	}
 	md, ok := d.(*diff.MappingDiff)
 	if !ok {
 		panic(fmt.Errorf("expected a diff in unequal environments"))
